@@ -189,7 +189,7 @@ def vary_envelope(rng, doc):
     return [doc[0], doc[1], doc[2], doc[3], kids]
 
 
-ODD_MESSAGE_IDS = [ABSENT, BLANK, 'abc', '12x', '007', '0']
+ODD_MESSAGE_IDS = [ABSENT, BLANK, 'abc', '12x', '007', '0', ' 9 ', '+9', '1_0', '\n  12\n', '1__0', '_1', '+']
 
 
 def odd_message_id(rng, doc):
@@ -272,6 +272,8 @@ def _random_message(g, state, message_id, cls=None, p=0.8):
             ch.append(B.timing_md(duration='5', schema=r.choice(['s1', 's2', 'http://example.org/schema'])))
         if r.random() < 0.3:
             ch.append(E('roTrigger', text='trig'))
+        if r.random() < 0.3:
+            ch.append(E(r.choice(['roChannel', 'roEdDur', 'roTrigger']), text=r.choice([None, None, ' ', '\n  '])))   # a field sent empty
         return cls, B.metadata_replace(ch, **kw)
     if cls == 'EAStoryReplace':
         return cls, B.ea('REPLACE', {'storyID': pick_ref(r, sids, p)}, [[g.new_story() for _ in range(r.randrange(0, 3))]], **kw)
